@@ -1,4 +1,11 @@
 # generated layout shared by C15 / C16 / C17 (same world, -DORACLE selects whose oracle reports)
+import os as _os
+_R = _os.environ.get("VERIF_REPO", "/repo")
+_V = _os.environ.get("VERIF_HOME", "/verif")
+# host build of the nrf52 binding's header: stub <nrf.h>, include paths of the binding
+_NRF_FLAGS = ["-fpermissive", "-I" + _V + "/stubs", "-I" + _R + "/bluetoe/bindings/nordic/include",
+              "-I" + _R + "/bluetoe/bindings/nordic/nrf52/include", "-I" + _R + "/bluetoe/bindings/nordic/uECC"]
+
 def _v(name, buf, mode, forced, dq, dt, thorough_only=False):
     d = dict(name=name, defs=["BUF=%d" % buf, "MODE=%d" % mode, "FORCED=%d" % forced, "DEPTH_Q=%d" % dq, "DEPTH_T=%d" % dt])
     if thorough_only:
@@ -9,21 +16,30 @@ reg("C16",
     level="model_checking",
     technique="explicit-state BFS over the real ll_data_pdu_buffer<TX,RX,Radio> with a Radio that counts increment_receive/transmit_packet_counter calls, driven like the nrf52 radio interrupt handler, against an independent central with its own CCM packet counters; per-event counter deltas and nonce agreement checked on every transition",
     rule="state = byte image of the real buffer object (rings, SN/NESN bits, counters) + fallback receive buffer + reference model; one transition = one connection event = upper-layer action {none, commit 1 byte, commit 27 bytes, consume, consume after the receive buffer was allocated} x central {new data, new empty, repeat last PDU} x fault c->p {ok, lost, CRC error, MIC error} x fault p->c {ok, lost}; classes = (ISR path, new/resent data/empty, ack/nak, transmit ring released, kind of answer, central acknowledged). oracle C16: receive counter +1 exactly when a new non-empty PDU is acknowledged through received(), +0 otherwise (resent, empty, CRC, MIC, full); transmit counter +1 exactly when a non-empty PDU leaves the transmit ring on an acknowledge; counter in force for the k-th PDU of each direction equals the central's counter (nonce agreement)",
-    bound="quick: TX=RX=29 all reachable states (fixpoint, incl. a central repeating acknowledged PDUs); TX=RX=58 both directions 6 connection events, 87 both directions 5, 58 with a central that also repeats acknowledged PDUs 4; receive direction alone (nothing committed): 58 to the fixpoint = all reachable states, 87 10 events; transmit direction alone (central sends empty PDUs): 58 7 events, 87 8 events. thorough: 58 both directions 9 events, 61 (library default) 8, 87 7, repeated-acknowledged variant 7; receive direction alone: fixpoint for 58 (also with repeated acknowledged PDUs) and 87, 87 with repeated acknowledged PDUs 14 events; transmit direction alone 10 (58) / 12 (87) events. Payload ids and packet counters modulo 4.",
+    bound="quick: TX=RX=29 all reachable states (fixpoint, incl. a central repeating acknowledged PDUs); TX=RX=58 both directions 6 connection events, 87 both directions 5, 58 with a central that also repeats acknowledged PDUs 4; receive direction alone (nothing committed): 58 to the fixpoint = all reachable states, 87 10 events; transmit direction alone (central sends empty PDUs): 58 7 events, 87 8 events. thorough: 58 both directions 9 events, 61 (library default) 7, 87 6, repeated-acknowledged variant 6; receive direction alone: fixpoint for 58 (also with repeated acknowledged PDUs) and 87, 87 with repeated acknowledged PDUs 14 events; transmit direction alone 9 (58) / 12 (87) events. Payload ids and packet counters modulo 4. Real nrf52 ISR as device under test: 58 both directions 4 events (thorough 7), thorough also 87 6 events, receive direction fixpoint, transmit direction 9 events. counter::increment/copy_to: 256 high octets x 16 low words x 0..4 increments.",
     units=[dict(src="harness/C15_ll_buffer.cpp", defs=["ORACLE=16"],
                 variants=[_v("mix29", 29, 0, 1, 40, 40),
                           _v("mix58", 58, 0, 0, 6, 9),
-                          _v("mix87", 87, 0, 0, 5, 7),
-                          _v("mix58f", 58, 0, 1, 4, 7),
-                          _v("mix61", 61, 0, 0, 6, 8, thorough_only=True),
+                          _v("mix87", 87, 0, 0, 5, 6),
+                          _v("mix58f", 58, 0, 1, 4, 6),
+                          _v("mix61", 61, 0, 0, 6, 7, thorough_only=True),
                           _v("rx58", 58, 1, 0, 60, 60),
                           _v("rx58f", 58, 1, 1, 60, 60, thorough_only=True),
                           _v("rx87", 87, 1, 0, 10, 60),
                           _v("rx87f", 87, 1, 1, 9, 14, thorough_only=True),
-                          _v("tx58f", 58, 2, 1, 7, 10),
-                          _v("tx87", 87, 2, 0, 8, 12)])],
+                          _v("tx58f", 58, 2, 1, 7, 9),
+                          _v("tx87", 87, 2, 0, 8, 12)]),
+           # the real nrf52_radio_base (schedule_connection_event / radio_interrupt_handler / run) with a scripted fake Hardware
+           dict(src="harness/C15_ll_buffer.cpp", defs=["ORACLE=16", "ISR=1"], flags=_NRF_FLAGS, link_ll=True,
+                variants=[_v("isr58", 58, 0, 0, 4, 7),
+                          _v("isr87", 87, 0, 0, 4, 6, thorough_only=True),
+                          _v("isr58rxf", 58, 1, 1, 60, 60, thorough_only=True),
+                          _v("isr58txf", 58, 2, 1, 7, 9, thorough_only=True)]),
+           # second anchor: counter::increment / copy_to of nrf52.cpp, text extracted at build time
+           dict(src="harness/C16_counter.cpp", flags=_NRF_FLAGS, pre=["python3", "gen/C16_counter_extract.py"])],
     quick_deadline=40, thorough_deadline=560,
     assumptions=[
+        "units isr*: nrf52_radio_base is instantiated on the host with a fake Hardware (scripted received_pdu(), recorded configure_receive_train / configure_final_transmit) and zero initialised storage (radio objects are static on the target); the real ISR stays silent on a CRC error (treated like a lost PDU), the transcribed table of the other units answers with next_transmit() - both are explored",
         "driver = decision table of nrf52_radio_base::radio_interrupt_handler (state evt_wait_connect): no anchor -> nothing called; fallback receive buffer or CRC error -> next_transmit(); valid PDU -> received(); CRC ok + MIC bad -> acknowledge(); one PDU pair per connection event; receive buffer allocated when the event is scheduled",
         "the central obeys the SN/NESN rules (new PDU only after the acknowledge); variants *f add a central that repeats an already acknowledged PDU",
         "MIC errors only on non-empty PDUs (hardware evaluates no MIC for empty ones); C15/C16 explore MIC failures only on resent, already delivered PDUs (the case an encrypted link produces) - a MIC failure on a new PDU is quantified by C17 only",
